@@ -166,8 +166,8 @@ class C01(Check):
             if case["kind"] == "random":
                 return self.random_oracle(case, sc)
             if case["kind"] == "program":
-                from .. import qprog
-                return qprog.c01_program_oracle(self, case, sc)
+                from .. import qchecks
+                return qchecks.c01_program_oracle(self, case, sc)
         return None
 
     def search(self, tier, seed):
@@ -201,11 +201,8 @@ def _worker(widx, wseed, tier, check):
         if f:
             failures.append(f)
         # (c)
-        try:
-            from .. import qprog
-        except ImportError:
-            qprog = None
-        if qprog is not None and hasattr(qprog, "c01_program_search"):
+        from .. import qchecks as qprog
+        if True:
             f = qprog.c01_program_search(check, sc, derive_seed(wseed, "prog"), 150 if tier == "quick" else 2500, stats)
             if f:
                 failures.append(f)
